@@ -10,6 +10,8 @@ deriving instance DecidableEq for Except
 namespace Dulwich.CommitGraphFmt
 open Dulwich
 
+theorem consts_wf : NONE < MISSING ∧ MISSING < EXTRA ∧ LAST = EXTRA := by decide
+
 theorem indexOf_mem (oids : List Bytes) (p : Bytes) (h : p ∈ oids) :
     ∃ j, indexOf oids p = some j ∧ j < oids.length ∧ oids[j]? = some p := by
   induction oids with
@@ -25,424 +27,288 @@ theorem indexOf_mem (oids : List Bytes) (p : Bytes) (h : p ∈ oids) :
       obtain ⟨j, h1, h2, h3⟩ := ih hp
       exact ⟨j + 1, by simp [hx, h1], by simp; omega, by simpa using h3⟩
 
-theorem parseExtraEdges_spec (oids : List Bytes) : ∀ (init : List Nat) (last : Nat) (junk : List Nat),
-    (∀ p ∈ init, p < oids.length ∧ p < LAST) → last < oids.length →
-    parseExtraEdges oids (init ++ [last + LAST] ++ junk) = (init ++ [last]).filterMap (oids[·]?) := by
+theorem indexOf_none (oids : List Bytes) (p : Bytes) (h : p ∉ oids) : indexOf oids p = none := by
+  induction oids with
+  | nil => rfl
+  | cons x xs ih =>
+    unfold indexOf
+    have hx : ¬ x = p := fun e => h (by simp [e])
+    rw [if_neg hx, ih (fun hp => h (by simp [hp]))]
+    rfl
+
+theorem parentPos_mem {oids : List Bytes} {p : Bytes} (h : p ∈ oids) :
+    oids[parentPos oids p]? = some p ∧ parentPos oids p < oids.length := by
+  obtain ⟨j, h1, h2, h3⟩ := indexOf_mem oids p h
+  have e : parentPos oids p = j := by simp [parentPos, h1]
+  rw [e]; exact ⟨h3, h2⟩
+
+theorem parentPos_not_mem {oids : List Bytes} {p : Bytes} (h : p ∉ oids) : parentPos oids p = MISSING := by
+  simp [parentPos, indexOf_none oids p h]
+
+/-- the reader on the words the writer emits for the second and further parents of one commit: all of them,
+in order, if they are all in the file — "unknown" as soon as one is not -/
+theorem parseExtraEdges_flagLast (oids : List Bytes) (hn : oids.length < NONE) :
+    ∀ (ps : List Bytes), ps ≠ [] → ∀ (post : List Nat),
+      parseExtraEdges oids (flagLast (ps.map (parentPos oids)) ++ post) =
+        if (∀ p ∈ ps, p ∈ oids) then some ps else none := by
+  obtain ⟨c1, c2, c3⟩ := consts_wf
+  intro ps
+  induction ps with
+  | nil => intro h; exact absurd rfl h
+  | cons a t ih =>
+    intro _ post
+    cases t with
+    | nil =>
+      simp only [List.map_cons, List.map_nil, flagLast, List.cons_append, List.nil_append, parseExtraEdges]
+      by_cases ha : a ∈ oids
+      · obtain ⟨g1, g2⟩ := parentPos_mem ha
+        have h1 : parentPos oids a + LAST ≥ LAST := by omega
+        have h2 : parentPos oids a + LAST - LAST = parentPos oids a := by omega
+        have h3 : ¬ (parentPos oids a = MISSING) := by omega
+        simp only [h1, if_true, h2, h3, if_false, g1]
+        simp [ha]
+      · have h0 := parentPos_not_mem ha
+        have h1 : parentPos oids a + LAST ≥ LAST := by omega
+        have h2 : parentPos oids a + LAST - LAST = MISSING := by omega
+        simp only [h1, if_true, h2]
+        simp [ha]
+    | cons b r =>
+      have ihh := ih (by simp) post
+      simp only [List.map_cons, flagLast, List.cons_append, parseExtraEdges] at ihh ⊢
+      by_cases ha : a ∈ oids
+      · obtain ⟨g1, g2⟩ := parentPos_mem ha
+        have h1 : ¬ (parentPos oids a ≥ LAST) := by omega
+        have h3 : ¬ (parentPos oids a = MISSING) := by omega
+        simp only [h1, if_false, h3, g1]
+        rw [show flagLast (parentPos oids b :: List.map (parentPos oids) r) ++ post =
+          flagLast (List.map (parentPos oids) (b :: r)) ++ post from rfl] at *
+        rw [ihh]
+        by_cases hall : ∀ p ∈ b :: r, p ∈ oids
+        · rw [if_pos hall]
+          have : ∀ p ∈ a :: b :: r, p ∈ oids := by
+            intro p hp; cases hp with
+            | head => exact ha
+            | tail _ hp => exact hall p hp
+          rw [if_pos this]
+        · rw [if_neg hall]
+          have : ¬ ∀ p ∈ a :: b :: r, p ∈ oids := fun h => hall (fun p hp => h p (by simp [hp]))
+          rw [if_neg this]
+      · have h0 := parentPos_not_mem ha
+        have h1 : ¬ (MISSING ≥ LAST) := by omega
+        rw [h0]
+        simp only [h1, if_false, if_true]
+        have : ¬ ∀ p ∈ a :: b :: r, p ∈ oids := fun h => ha (h a (by simp))
+        rw [if_neg this]
+
+
+/-- what the file is allowed to say about a commit with (real) parents `ps`: the full list, or "unknown" -/
+def answerFor (oids : List Bytes) (ps : List Bytes) : Option (List Bytes) :=
+  if (∀ p ∈ ps, p ∈ oids) then some ps else none
+
+theorem firstSlot_pos {oids : List Bytes} {p1 : Nat} {o : Bytes} (h : p1 < NONE) (e : oids[p1]? = some o) :
+    firstSlot oids p1 = .ok (some [o]) := by
+  unfold firstSlot; rw [if_pos h, e]
+
+theorem firstSlot_missing (oids : List Bytes) : firstSlot oids MISSING = .ok none := by
+  have h : ¬ (MISSING < NONE) := by have := consts_wf.1; omega
+  unfold firstSlot; rw [if_neg h, if_pos rfl]
+
+theorem firstSlot_none (oids : List Bytes) : firstSlot oids NONE = .ok (some []) := by
+  have h : ¬ (NONE < NONE) := by omega
+  have h2 : ¬ (NONE = MISSING) := by have := consts_wf.1; omega
+  unfold firstSlot; rw [if_neg h, if_neg h2]
+
+theorem secondSlot_pos {oids : List Bytes} {E : Option (List Nat)} {a : Option (List Bytes)} {p2 : Nat} {o : Bytes}
+    (h : p2 < NONE) (e : oids[p2]? = some o) : secondSlot oids E a p2 = .ok (a.map (· ++ [o])) := by
+  unfold secondSlot; rw [if_pos h, e]
+
+theorem secondSlot_missing (oids : List Bytes) (E : Option (List Nat)) (a : Option (List Bytes)) :
+    secondSlot oids E a MISSING = .ok none := by
+  have h : ¬ (MISSING < NONE) := by have := consts_wf.1; omega
+  unfold secondSlot; rw [if_neg h, if_pos rfl]
+
+theorem secondSlot_none (oids : List Bytes) (E : Option (List Nat)) (a : Option (List Bytes)) :
+    secondSlot oids E a NONE = .ok a := by
+  obtain ⟨c1, c2, _⟩ := consts_wf
+  have h : ¬ (NONE < NONE) := by omega
+  have h2 : ¬ (NONE = MISSING) := by omega
+  have h3 : ¬ (NONE ≥ EXTRA) := by omega
+  unfold secondSlot; rw [if_neg h, if_neg h2, if_neg h3]
+
+theorem secondSlot_edges (oids : List Bytes) (ws : List Nat) (a : Option (List Bytes)) (n : Nat) :
+    secondSlot oids (some ws) a (EXTRA + n) =
+      .ok (match a, parseExtraEdges oids (ws.drop n) with
+        | some x, some y => some (x ++ y)
+        | _, _ => none) := by
+  obtain ⟨c1, c2, _⟩ := consts_wf
+  have h : ¬ (EXTRA + n < NONE) := by omega
+  have h2 : ¬ (EXTRA + n = MISSING) := by omega
+  have h3 : EXTRA + n ≥ EXTRA := by omega
+  have h4 : EXTRA + n - EXTRA = n := by omega
+  unfold secondSlot; rw [if_neg h, if_neg h2, if_pos h3, h4]
+  cases a <;> rfl
+
+theorem decodeParents_eq (oids : List Bytes) (E : Option (List Nat)) (p1 p2 : Nat) (a : Option (List Bytes))
+    (h : firstSlot oids p1 = .ok a) : decodeParents oids E p1 p2 = secondSlot oids E a p2 := by
+  unfold decodeParents; rw [h]
+
+/-- the reader undoes the writer's encoding of ONE entry; for three or more parents the complete edge list must
+contain this entry's words at the offset the writer recorded -/
+theorem decode_encodeParents (oids : List Bytes) (hn : oids.length < NONE) (ps : List Bytes) (m : Nat)
+    (E : Option (List Nat))
+    (hE : ps.length > 2 → ∃ pre post, E = some (pre ++ ((encodeParents oids (some ps) m).2.2 ++ post)) ∧ pre.length = m) :
+    decodeParents oids E (encodeParents oids (some ps) m).1 (encodeParents oids (some ps) m).2.1 =
+      .ok (answerFor oids ps) := by
+  unfold answerFor
+  cases ps with
+  | nil =>
+    simp only [encodeParents]
+    rw [decodeParents_eq _ _ _ _ _ (firstSlot_none oids), secondSlot_none]
+    simp
+  | cons a t =>
+    cases t with
+    | nil =>
+      simp only [encodeParents]
+      by_cases ha : a ∈ oids
+      · obtain ⟨g1, g2⟩ := parentPos_mem ha
+        rw [decodeParents_eq _ _ _ _ _ (firstSlot_pos (by omega) g1), secondSlot_none]
+        simp [ha]
+      · rw [parentPos_not_mem ha, decodeParents_eq _ _ _ _ _ (firstSlot_missing oids), secondSlot_none]
+        simp [ha]
+    | cons b t2 =>
+      cases t2 with
+      | nil =>
+        simp only [encodeParents]
+        by_cases ha : a ∈ oids
+        · obtain ⟨g1, g2⟩ := parentPos_mem ha
+          rw [decodeParents_eq _ _ _ _ _ (firstSlot_pos (by omega) g1)]
+          by_cases hb : b ∈ oids
+          · obtain ⟨k1, k2⟩ := parentPos_mem hb
+            rw [secondSlot_pos (by omega) k1]
+            simp [ha, hb]
+          · rw [parentPos_not_mem hb, secondSlot_missing]
+            simp [hb]
+        · rw [parentPos_not_mem ha, decodeParents_eq _ _ _ _ _ (firstSlot_missing oids)]
+          by_cases hb : b ∈ oids
+          · obtain ⟨k1, k2⟩ := parentPos_mem hb
+            rw [secondSlot_pos (by omega) k1]
+            simp [ha]
+          · rw [parentPos_not_mem hb, secondSlot_missing]
+            simp [ha]
+      | cons c rest =>
+        obtain ⟨pre, post, rfl, hpre⟩ := hE (by simp)
+        simp only [encodeParents]
+        have hx := parseExtraEdges_flagLast oids hn (b :: c :: rest) (by simp) post
+        by_cases ha : a ∈ oids
+        · obtain ⟨g1, g2⟩ := parentPos_mem ha
+          rw [decodeParents_eq _ _ _ _ _ (firstSlot_pos (by omega) g1), ← hpre, secondSlot_edges,
+            List.drop_left, hx]
+          by_cases hall : ∀ p ∈ b :: c :: rest, p ∈ oids
+          · have : ∀ p ∈ a :: b :: c :: rest, p ∈ oids := by
+              intro p hp; cases hp with
+              | head => exact ha
+              | tail _ hp => exact hall p hp
+            rw [if_pos hall, if_pos this]; rfl
+          · have : ¬ ∀ p ∈ a :: b :: c :: rest, p ∈ oids := fun h => hall (fun p hp => h p (by simp [hp]))
+            rw [if_neg hall, if_neg this]
+        · rw [parentPos_not_mem ha, decodeParents_eq _ _ _ _ _ (firstSlot_missing oids), ← hpre, secondSlot_edges]
+          have : ¬ ∀ p ∈ a :: b :: c :: rest, p ∈ oids := fun h => ha (h a (by simp))
+          rw [if_neg this]
+
+/-- where entry `i` ends up in the output of the writer's loop -/
+theorem encodeAll_spec (oids : List Bytes) : ∀ (pss : List (Option (List Bytes))) (n i : Nat) (ps : Option (List Bytes)),
+    pss[i]? = some ps →
+      ∃ pre post, (encodeAll oids pss n).1[i]? =
+          some ((encodeParents oids ps (n + pre.length)).1, (encodeParents oids ps (n + pre.length)).2.1) ∧
+        (encodeAll oids pss n).2 = pre ++ ((encodeParents oids ps (n + pre.length)).2.2 ++ post) := by
+  intro pss
+  induction pss with
+  | nil => intro n i ps hi; simp at hi
+  | cons q more ih =>
+    intro n i ps hi
+    cases i with
+    | zero =>
+      simp at hi; subst hi
+      exact ⟨[], (encodeAll oids more (n + (encodeParents oids q n).2.2.length)).2, by simp [encodeAll], by simp [encodeAll]⟩
+    | succ i =>
+      simp at hi
+      obtain ⟨pre, post, g1, g2⟩ := ih (n + (encodeParents oids q n).2.2.length) i ps hi
+      refine ⟨(encodeParents oids q n).2.2 ++ pre, post, ?_, ?_⟩
+      · have e : n + ((encodeParents oids q n).2.2 ++ pre).length = n + (encodeParents oids q n).2.2.length + pre.length := by
+          simp; omega
+        rw [e]; simpa [encodeAll] using g1
+      · have e : n + ((encodeParents oids q n).2.2 ++ pre).length = n + (encodeParents oids q n).2.2.length + pre.length := by
+          simp; omega
+        rw [e]; simp [encodeAll, g2]
+
+theorem flagLast_ne_nil : ∀ (r : List Nat), r ≠ [] → flagLast r ≠ [] := by
+  intro r h
+  match r, h with
+  | [x], _ => simp [flagLast]
+  | x :: y :: t, _ => simp [flagLast]
+
+/-- every answer of the written file about entry `i`: the full parent list if all parents are in the file,
+"unknown" otherwise — never anything else -/
+theorem roundTrip_answer (es : List (Bytes × List Bytes)) (i : Nat) (e : Bytes × List Bytes)
+    (hn : es.length < NONE) (hi : es[i]? = some e) :
+    roundTripParents es i = some (.ok (answerFor (es.map (·.1)) e.2)) := by
+  have hi2 : (es.map (fun e => some e.2))[i]? = some (some e.2) := by simp [hi]
+  obtain ⟨pre, post, g1, g2⟩ := encodeAll_spec (es.map (·.1)) _ 0 i (some e.2) hi2
+  unfold roundTripParents
+  simp only [g1]
+  congr 1
+  apply decode_encodeParents (es.map (·.1)) (by simpa using hn) e.2 (0 + pre.length)
+  intro hlen
+  have hew : (encodeParents (es.map (·.1)) (some e.2) (0 + pre.length)).2.2 ≠ [] := by
+    match h : e.2, hlen with
+    | a :: b :: c :: rest, _ =>
+      simp only [encodeParents]
+      exact flagLast_ne_nil _ (by simp)
+  refine ⟨pre, post, ?_, by simp⟩
+  have hne : (encodeAll (es.map (·.1)) (es.map (fun e => some e.2)) 0).2.isEmpty = false := by
+    rw [g2]
+    generalize (encodeParents (es.map (·.1)) (some e.2) (0 + pre.length)).2.2 = ew at hew
+    cases pre <;> cases ew <;> simp_all
+  rw [hne, g2]
+  rfl
+
+/-- the reader on C git's encoding of extra edges (all positions valid) -/
+theorem parseExtraEdges_spec (oids : List Bytes) (hn : oids.length < NONE) : ∀ (init : List Nat) (last : Nat) (junk : List Nat),
+    (∀ p ∈ init, p < oids.length) → last < oids.length →
+    parseExtraEdges oids (init ++ [last + LAST] ++ junk) = some ((init ++ [last]).filterMap (oids[·]?)) := by
+  obtain ⟨c1, c2, c3⟩ := consts_wf
   intro init
   induction init with
   | nil =>
     intro last junk _ hl
     have h1 : last + LAST ≥ LAST := by omega
     have h2 : last + LAST - LAST = last := by omega
-    simp [parseExtraEdges, h1, h2, hl]
+    have h3 : ¬ (last = MISSING) := by omega
+    have : oids[last]? = some oids[last] := by simp [hl]
+    simp only [List.nil_append, List.cons_append, parseExtraEdges, h1, if_true, h2, h3, if_false, this]
+    simp [this]
   | cons p ps ih =>
     intro last junk hin hl
     have hp := hin p (by simp)
     have h1 : ¬ (p ≥ LAST) := by omega
-    simp only [List.cons_append, parseExtraEdges, h1, if_false]
-    have : oids[p]? = some oids[p] := by simp [hp.1]
-    rw [this]
-    simp only [List.filterMap_cons, this]
-    rw [← ih last junk (fun q hq => hin q (by simp [hq])) hl]
+    have h3 : ¬ (p = MISSING) := by omega
+    have : oids[p]? = some oids[p] := by simp [hp]
+    simp only [List.cons_append, parseExtraEdges, h1, if_false, h3, this]
+    rw [ih last junk (fun q hq => hin q (by simp [hq])) hl]
+    simp [this]
 
-/-- the reader on C git's encoding of a commit with three or more parents: first parent in slot 1, slot 2 =
-`GRAPH_EXTRA_EDGES_NEEDED | k`, the remaining parents in the EDGE chunk from word `k`, the last one flagged -/
 theorem decodeParents_edges (oids : List Bytes) (pre init junk : List Nat) (p1 last : Nat)
-    (h1 : p1 < oids.length) (hn : oids.length < MISSING)
-    (hin : ∀ p ∈ init, p < oids.length ∧ p < LAST) (hl : last < oids.length) :
+    (h1 : p1 < oids.length) (hn : oids.length < NONE)
+    (hin : ∀ p ∈ init, p < oids.length) (hl : last < oids.length) :
     decodeParents oids (some (pre ++ (init ++ [last + LAST] ++ junk))) p1 (EXTRA + pre.length) =
-      .ok ((p1 :: (init ++ [last])).filterMap (oids[·]?)) := by
-  have hME : MISSING < EXTRA := by decide
-  have a : p1 < MISSING := by omega
-  have b : ¬ (EXTRA + pre.length < MISSING) := by omega
-  have c : EXTRA + pre.length ≥ EXTRA := by omega
-  have d : EXTRA + pre.length - EXTRA = pre.length := by omega
+      .ok (some ((p1 :: (init ++ [last])).filterMap (oids[·]?))) := by
   have e : oids[p1]? = some oids[p1] := by simp [h1]
-  unfold decodeParents
-  simp only [a, if_true, e, b, if_false, c, d, List.drop_left, List.filterMap_cons]
-  rw [parseExtraEdges_spec oids init last junk hin hl]
-  rfl
-
-
-theorem indexOf_some : ∀ (oids : List Bytes) (p : Bytes) (j : Nat),
-    indexOf oids p = some j → oids[j]? = some p := by
-  intro oids
-  induction oids with
-  | nil => intro p j h; simp [indexOf] at h
-  | cons x xs ih =>
-    intro p j h
-    unfold indexOf at h
-    by_cases hx : x = p
-    · rw [if_pos hx] at h; cases h; simp [hx]
-    · rw [if_neg hx] at h
-      cases hi : indexOf xs p with
-      | none => simp [hi] at h
-      | some k => simp [hi] at h; subst h; simpa using ih p k hi
-
-theorem parentPos_ok {oids : List Bytes} {p : Bytes} {j : Nat} (h : parentPos oids p = .ok j) :
-    oids[j]? = some p ∧ j < oids.length ∧ p ∈ oids := by
-  unfold parentPos at h
-  cases hi : indexOf oids p with
-  | none => simp [hi] at h
-  | some k =>
-    simp [hi] at h; subst h
-    have := indexOf_some oids p k hi
-    obtain ⟨hk, he⟩ := List.getElem?_eq_some_iff.mp this
-    exact ⟨this, hk, he ▸ List.getElem_mem hk⟩
-
-theorem parentPos_of_mem {oids : List Bytes} {p : Bytes} (h : p ∈ oids) : ∃ j, parentPos oids p = .ok j := by
-  obtain ⟨j, h1, _, _⟩ := indexOf_mem oids p h
-  exact ⟨j, by simp [parentPos, h1]⟩
-
-theorem mapM_parentPos_ok (oids : List Bytes) : ∀ (rest : List Bytes) (r : List Nat),
-    rest.mapM (parentPos oids) = .ok r →
-    r.filterMap (oids[·]?) = rest ∧ (∀ x ∈ r, x < oids.length) ∧ r.length = rest.length ∧ ∀ p ∈ rest, p ∈ oids := by
-  intro rest
-  induction rest with
-  | nil => intro r h; simp [List.mapM_nil, pure, Except.pure] at h; subst h; simp
-  | cons a as ih =>
-    intro r h
-    rw [List.mapM_cons] at h
-    cases ha : parentPos oids a with
-    | error e => simp [ha, bind, Except.bind] at h
-    | ok j =>
-      cases hr : as.mapM (parentPos oids) with
-      | error e => simp [ha, hr, bind, Except.bind] at h
-      | ok r' =>
-        simp [ha, hr, bind, Except.bind, pure, Except.pure] at h
-        subst h
-        obtain ⟨h1, h2, h3, h4⟩ := ih r' hr
-        obtain ⟨g1, g2, g3⟩ := parentPos_ok ha
-        refine ⟨by simp [g1, h1], ?_, by simp [h3], ?_⟩
-        · intro x hx; cases hx with
-          | head => exact g2
-          | tail _ hx => exact h2 x hx
-        · intro p hp; cases hp with
-          | head => exact g3
-          | tail _ hp => exact h4 p hp
-
-theorem mapM_parentPos_of_mem (oids : List Bytes) : ∀ (rest : List Bytes),
-    (∀ p ∈ rest, p ∈ oids) → ∃ r, rest.mapM (parentPos oids) = .ok r := by
-  intro rest
-  induction rest with
-  | nil => intro _; exact ⟨[], rfl⟩
-  | cons a as ih =>
-    intro h
-    obtain ⟨j, hj⟩ := parentPos_of_mem (h a (by simp))
-    obtain ⟨r, hr⟩ := ih (fun p hp => h p (by simp [hp]))
-    exact ⟨j :: r, by rw [List.mapM_cons]; simp [hj, hr, bind, Except.bind, pure, Except.pure]⟩
-
-theorem flagLast_spec : ∀ (r : List Nat), r ≠ [] →
-    ∃ init last, r = init ++ [last] ∧ flagLast r = init ++ [last + LAST] := by
-  intro r
-  induction r with
-  | nil => intro h; exact absurd rfl h
-  | cons x xs ih =>
-    intro _
-    cases xs with
-    | nil => exact ⟨[], x, rfl, rfl⟩
-    | cons y ys =>
-      obtain ⟨init, last, h1, h2⟩ := ih (by simp)
-      exact ⟨x :: init, last, by simp [h1], by simp [flagLast, h2]⟩
-
-
-/-- the reader undoes the writer's encoding of ONE entry; for three or more parents the complete edge list must
-contain this entry's words at the offset the writer recorded -/
-theorem decode_encodeParents (oids : List Bytes) (hn : oids.length < MISSING) (ps : List Bytes) (m : Nat)
-    (p1 p2 : Nat) (ew : List Nat) (h : encodeParents oids ps m = .ok (p1, p2, ew)) (E : Option (List Nat))
-    (hE : ps.length > 2 → ∃ pre post, E = some (pre ++ (ew ++ post)) ∧ pre.length = m) :
-    decodeParents oids E p1 p2 = .ok ps := by
-  have hME : MISSING < EXTRA := by decide
-  have hnE : ¬ (EXTRA ≤ MISSING) := by omega
-  cases ps with
-  | nil =>
-    simp only [encodeParents, Except.ok.injEq, Prod.mk.injEq] at h
-    obtain ⟨rfl, rfl, _⟩ := h
-    simp [decodeParents, hnE]
-  | cons a t =>
-    cases t with
-    | nil =>
-      simp only [encodeParents] at h
-      cases ha : parentPos oids a with
-      | error e => simp [ha] at h
-      | ok x =>
-        simp only [ha, Except.ok.injEq, Prod.mk.injEq] at h
-        obtain ⟨rfl, rfl, _⟩ := h
-        obtain ⟨g1, g2, _⟩ := parentPos_ok ha
-        have : x < MISSING := by omega
-        simp [decodeParents, this, g1, hnE]
-    | cons b t2 =>
-      cases t2 with
-      | nil =>
-        simp only [encodeParents] at h
-        cases ha : parentPos oids a with
-        | error e => simp [ha] at h
-        | ok x =>
-          cases hb : parentPos oids b with
-          | error e => simp [ha, hb] at h
-          | ok y =>
-            simp only [ha, hb, Except.ok.injEq, Prod.mk.injEq] at h
-            obtain ⟨rfl, rfl, _⟩ := h
-            obtain ⟨g1, g2, _⟩ := parentPos_ok ha
-            obtain ⟨k1, k2, _⟩ := parentPos_ok hb
-            have hx : x < MISSING := by omega
-            have hy : y < MISSING := by omega
-            unfold decodeParents
-            simp only [hx, hy, if_true, g1, k1]
-            rfl
-      | cons c rest =>
-        simp only [encodeParents] at h
-        cases ha : parentPos oids a with
-        | error e => simp [ha] at h
-        | ok x =>
-          cases hr : (b :: c :: rest).mapM (parentPos oids) with
-          | error e => simp [ha, hr] at h
-          | ok r =>
-            simp only [ha, hr, Except.ok.injEq, Prod.mk.injEq] at h
-            obtain ⟨rfl, rfl, rfl⟩ := h
-            obtain ⟨g1, g2, _⟩ := parentPos_ok ha
-            obtain ⟨h1, h2, h3, _⟩ := mapM_parentPos_ok oids _ r hr
-            have hne : r ≠ [] := by intro h0; rw [h0] at h3; simp at h3
-            obtain ⟨init, last, e1, e2⟩ := flagLast_spec r hne
-            obtain ⟨pre, post, rfl, hpre⟩ := hE (by simp)
-            have hL : MISSING < LAST := by decide
-            have hin : ∀ p ∈ init, p < oids.length ∧ p < LAST := by
-              intro p hp
-              have := h2 p (by rw [e1]; simp [hp])
-              exact ⟨this, by omega⟩
-            have hl : last < oids.length := h2 last (by rw [e1]; simp)
-            rw [e2, ← hpre]
-            have := decodeParents_edges oids pre init post x last g2 hn hin hl
-            simp only [List.append_assoc] at this ⊢
-            rw [this]
-            have hx : oids[x]? = some a := g1
-            simp only [List.filterMap_cons, hx]
-            rw [← e1, h1]
-
-/-- where entry `i` ends up in the output of the writer's loop -/
-theorem encodeAll_spec (oids : List Bytes) : ∀ (pss : List (List Bytes)) (n : Nat)
-    (slots : List (Nat × Nat)) (edges : List Nat), encodeAll oids pss n = .ok (slots, edges) →
-    ∀ (i : Nat) (ps : List Bytes), pss[i]? = some ps →
-      ∃ p1 p2 ew pre post, slots[i]? = some (p1, p2) ∧ encodeParents oids ps (n + pre.length) = .ok (p1, p2, ew) ∧
-        edges = pre ++ (ew ++ post) := by
-  intro pss
-  induction pss with
-  | nil => intro n slots edges _ i ps hi; simp at hi
-  | cons q more ih =>
-    intro n slots edges h i ps hi
-    rw [encodeAll] at h
-    cases hq : encodeParents oids q n with
-    | error e => simp [hq] at h
-    | ok t =>
-      obtain ⟨p1, p2, ew⟩ := t
-      cases hm : encodeAll oids more (n + ew.length) with
-      | error e => simp [hq, hm] at h
-      | ok t2 =>
-        obtain ⟨sl, ed⟩ := t2
-        simp only [hq, hm, Except.ok.injEq, Prod.mk.injEq] at h
-        obtain ⟨rfl, rfl⟩ := h
-        cases i with
-        | zero =>
-          simp at hi; subst hi
-          exact ⟨p1, p2, ew, [], ed, by simp, by simpa using hq, by simp⟩
-        | succ i =>
-          simp at hi
-          obtain ⟨a, b, w, pre, post, g1, g2, g3⟩ := ih (n + ew.length) sl ed hm i ps hi
-          refine ⟨a, b, w, ew ++ pre, post, by simpa using g1, ?_, by simp [g3]⟩
-          rw [← g2]; congr 1; simp; omega
-
-theorem encodeParents_mem {oids : List Bytes} {ps : List Bytes} {m : Nat} {t : Nat × Nat × List Nat}
-    (h : encodeParents oids ps m = .ok t) : ∀ p ∈ ps, p ∈ oids := by
-  match ps, h with
-  | [], _ => intro p hp; cases hp
-  | [a], h =>
-    simp only [encodeParents] at h
-    cases ha : parentPos oids a with
-    | error e => simp [ha] at h
-    | ok x => intro p hp; simp at hp; subst hp; exact (parentPos_ok ha).2.2
-  | [a, b], h =>
-    simp only [encodeParents] at h
-    cases ha : parentPos oids a with
-    | error e => simp [ha] at h
-    | ok x =>
-      cases hb : parentPos oids b with
-      | error e => simp [ha, hb] at h
-      | ok y =>
-        intro p hp; simp at hp
-        rcases hp with rfl | rfl
-        · exact (parentPos_ok ha).2.2
-        · exact (parentPos_ok hb).2.2
-  | a :: b :: c :: rest, h =>
-    simp only [encodeParents] at h
-    cases ha : parentPos oids a with
-    | error e => simp [ha] at h
-    | ok x =>
-      cases hr : (b :: c :: rest).mapM (parentPos oids) with
-      | error e => simp [ha, hr] at h
-      | ok r =>
-        intro p hp
-        cases hp with
-        | head => exact (parentPos_ok ha).2.2
-        | tail _ hp => exact (mapM_parentPos_ok oids _ r hr).2.2.2 p hp
-
-theorem encodeParents_of_mem {oids : List Bytes} (ps : List Bytes) (m : Nat) (h : ∀ p ∈ ps, p ∈ oids) :
-    ∃ t, encodeParents oids ps m = .ok t := by
-  match ps, h with
-  | [], _ => exact ⟨_, rfl⟩
-  | [a], h =>
-    obtain ⟨x, hx⟩ := parentPos_of_mem (h a (by simp))
-    exact ⟨(x, MISSING, []), by simp [encodeParents, hx]⟩
-  | [a, b], h =>
-    obtain ⟨x, hx⟩ := parentPos_of_mem (h a (by simp))
-    obtain ⟨y, hy⟩ := parentPos_of_mem (h b (by simp))
-    exact ⟨(x, y, []), by simp [encodeParents, hx, hy]⟩
-  | a :: b :: c :: rest, h =>
-    obtain ⟨x, hx⟩ := parentPos_of_mem (h a (by simp))
-    obtain ⟨r, hr⟩ := mapM_parentPos_of_mem oids (b :: c :: rest) (fun p hp => h p (by simp [hp]))
-    exact ⟨(x, EXTRA + m, flagLast r), by simp only [encodeParents, hx, hr]⟩
-
-theorem encodeAll_mem (oids : List Bytes) : ∀ (pss : List (List Bytes)) (n : Nat) (t : List (Nat × Nat) × List Nat),
-    encodeAll oids pss n = .ok t → ∀ ps ∈ pss, ∀ p ∈ ps, p ∈ oids := by
-  intro pss
-  induction pss with
-  | nil => intro n t _ ps hps; cases hps
-  | cons q more ih =>
-    intro n t h ps hps
-    rw [encodeAll] at h
-    cases hq : encodeParents oids q n with
-    | error e => simp [hq] at h
-    | ok t1 =>
-      obtain ⟨p1, p2, ew⟩ := t1
-      cases hm : encodeAll oids more (n + ew.length) with
-      | error e => simp [hq, hm] at h
-      | ok t2 =>
-        cases hps with
-        | head => exact encodeParents_mem hq
-        | tail _ hps => exact ih _ _ hm ps hps
-
-theorem encodeAll_of_mem (oids : List Bytes) : ∀ (pss : List (List Bytes)) (n : Nat),
-    (∀ ps ∈ pss, ∀ p ∈ ps, p ∈ oids) → ∃ t, encodeAll oids pss n = .ok t := by
-  intro pss
-  induction pss with
-  | nil => intro n _; exact ⟨_, rfl⟩
-  | cons q more ih =>
-    intro n h
-    obtain ⟨⟨p1, p2, ew⟩, hq⟩ := encodeParents_of_mem (oids := oids) q n (h q (by simp))
-    obtain ⟨⟨sl, ed⟩, hm⟩ := ih (n + ew.length) (fun ps hps => h ps (by simp [hps]))
-    exact ⟨((p1, p2) :: sl, ew ++ ed), by rw [encodeAll]; simp only [hq, hm]⟩
-
-theorem encodeAll_length (oids : List Bytes) : ∀ (pss : List (List Bytes)) (n : Nat)
-    (slots : List (Nat × Nat)) (edges : List Nat), encodeAll oids pss n = .ok (slots, edges) →
-    slots.length = pss.length := by
-  intro pss
-  induction pss with
-  | nil => intro n slots edges h; simp [encodeAll] at h; simp [h.1]
-  | cons q more ih =>
-    intro n slots edges h
-    rw [encodeAll] at h
-    cases hq : encodeParents oids q n with
-    | error e => simp [hq] at h
-    | ok t =>
-      obtain ⟨p1, p2, ew⟩ := t
-      cases hm : encodeAll oids more (n + ew.length) with
-      | error e => simp [hq, hm] at h
-      | ok t2 =>
-        obtain ⟨sl, ed⟩ := t2
-        simp only [hq, hm, Except.ok.injEq, Prod.mk.injEq] at h
-        obtain ⟨rfl, rfl⟩ := h
-        simp [ih _ _ _ hm]
-
-
-theorem closedB_iff (es : List (Bytes × List Bytes)) : closedB es = true ↔ Closed es := by
-  simp [closedB, Closed]
-
-theorem roundTrip_closed (es : List (Bytes × List Bytes)) (i : Nat) (e : Bytes × List Bytes)
-    (hn : es.length < MISSING) (hc : Closed es) (hi : es[i]? = some e) :
-    roundTripParents es i = some (.ok e.2) := by
-  have hall : ∀ ps ∈ es.map (·.2), ∀ p ∈ ps, p ∈ es.map (·.1) := by
-    intro ps hps p hp
-    obtain ⟨e', he', rfl⟩ := List.mem_map.mp hps
-    exact hc e' he' p hp
-  obtain ⟨⟨slots, edges⟩, hok⟩ := encodeAll_of_mem (es.map (·.1)) (es.map (·.2)) 0 hall
-  have hi2 : (es.map (·.2))[i]? = some e.2 := by simp [hi]
-  obtain ⟨p1, p2, ew, pre, post, g1, g2, g3⟩ := encodeAll_spec _ _ 0 slots edges hok i e.2 hi2
-  unfold roundTripParents
-  simp only [hok, g1]
-  congr 1
-  apply decode_encodeParents (es.map (·.1)) (by simpa using hn) e.2 (0 + pre.length) p1 p2 ew g2
-  intro hlen
-  -- three or more parents: this entry contributed at least one edge word, so the EDGE chunk exists
-  have hew : ew ≠ [] := by
-    match hps : e.2, hlen, g2 with
-    | a :: b :: c :: rest, _, g2 =>
-      simp only [encodeParents] at g2
-      cases ha : parentPos (es.map (·.1)) a with
-      | error _ => simp [ha] at g2
-      | ok x =>
-        cases hr : (b :: c :: rest).mapM (parentPos (es.map (·.1))) with
-        | error _ => simp [ha, hr] at g2
-        | ok r =>
-          simp only [ha, hr, Except.ok.injEq, Prod.mk.injEq] at g2
-          obtain ⟨_, _, rfl⟩ := g2
-          have h3 := (mapM_parentPos_ok _ _ r hr).2.2.1
-          have hne : r ≠ [] := by intro h0; rw [h0] at h3; simp at h3
-          obtain ⟨init, last, _, e2⟩ := flagLast_spec r hne
-          rw [e2]; simp
-  have hne : edges.isEmpty = false := by
-    rw [g3]; cases pre <;> cases ew <;> simp_all
-  refine ⟨pre, post, ?_, by simp⟩
-  rw [g3] at hne
-  rw [g3, hne]
-  rfl
-
-theorem roundTrip_open (es : List (Bytes × List Bytes)) (i : Nat) (hc : ¬ Closed es) :
-    roundTripParents es i = none := by
-  cases hok : encodeAll (es.map (·.1)) (es.map (·.2)) 0 with
-  | error _ => simp only [roundTripParents, hok]
-  | ok t =>
-    exfalso; apply hc
-    intro e he p hp
-    exact encodeAll_mem _ _ 0 t hok e.2 (List.mem_map.mpr ⟨e, he, rfl⟩) p hp
-
-
-theorem closeEntries_closed : ∀ (fuel : Nat) (es : List (Bytes × List Bytes)), es.length ≤ fuel →
-    closedB (closeEntries fuel es) = true := by
-  intro fuel
-  induction fuel with
-  | zero =>
-    intro es h
-    have : es = [] := List.length_eq_zero_iff.mp (by omega)
-    subst this; rfl
-  | succ fuel ih =>
-    intro es h
-    rw [closeEntries]
-    by_cases heq : (closeStep es).length = es.length
-    · rw [if_pos heq]
-      unfold closeStep at heq
-      have := List.length_filter_eq_length_iff.mp heq
-      unfold closedB
-      exact List.all_eq_true.mpr this
-    · rw [if_neg heq]
-      apply ih
-      have : (closeStep es).length ≤ es.length := by unfold closeStep; exact List.length_filter_le _ _
-      omega
-
-theorem closeEntries_sub : ∀ (fuel : Nat) (es : List (Bytes × List Bytes)),
-    ∀ e ∈ closeEntries fuel es, e ∈ es := by
-  intro fuel
-  induction fuel with
-  | zero => intro es e h; exact h
-  | succ fuel ih =>
-    intro es e h
-    rw [closeEntries] at h
-    by_cases heq : (closeStep es).length = es.length
-    · rw [if_pos heq] at h; exact h
-    · rw [if_neg heq] at h
-      have := ih (closeStep es) e h
-      unfold closeStep at this
-      exact (List.mem_filter.mp this).1
+  rw [decodeParents_eq _ _ _ _ _ (firstSlot_pos (by omega) e), secondSlot_edges, List.drop_left,
+    parseExtraEdges_spec oids hn init last junk hin hl]
+  simp [e]
 
 end Dulwich.CommitGraphFmt
+
 
 namespace Dulwich.Ewah
 open Dulwich
